@@ -3,8 +3,10 @@ package transport
 import (
 	"context"
 	"encoding/binary"
+	"errors"
 	"fmt"
 	"io"
+	"net"
 	"sync"
 	"time"
 
@@ -122,11 +124,30 @@ func (t *QuicTransport) exchangePayload(ctx context.Context, payload []byte) (*d
 		if err != nil {
 			if !newConn && retry < 5 && !ctxIsDone(ctx) {
 				retry++
+				// quic-go closes the streams of a dead connection before it
+				// cancels the connection's context. Make sure that the retry
+				// won't pick this connection again.
+				t.dropConn(c, err)
 				continue
 			}
 		}
 		return b, err
 	}
+}
+
+// dropConn removes a reused connection that just failed an exchange from t.
+func (t *QuicTransport) dropConn(c quic.Connection, err error) {
+	var ne net.Error
+	if errors.As(err, &ne) && ne.Temporary() {
+		// E.g. too many open streams. The connection is still fine.
+		return
+	}
+	t.m.Lock()
+	if t.c == c {
+		t.c = nil
+	}
+	t.m.Unlock()
+	c.CloseWithError(quic.ApplicationErrorCode(_DOQ_NO_ERROR), "")
 }
 
 func (t *QuicTransport) exchangeConn(ctx context.Context, payload []byte, c quic.Connection) (*dnsmsg.Msg, error) {
